@@ -1351,7 +1351,8 @@ def _energy_pos(m: Model, d: Data):
   if m.opt.enableflags & EnableBit.ENERGY:
     if m.sensor_e_potential == 0:  # not computed by sensor
       sensor.energy_pos(m, d)
-  else:
+  elif m.sensor_e_potential == 0 and m.sensor_e_kinetic == 0:
+    # energy sensors compute d.energy themselves (as mj_sensorPos / mj_sensorVel do): keep their result
     d.energy.zero_()
 
 
